@@ -494,9 +494,19 @@ func taintedAt(in *inst, k string, i int) bool {
 
 // ---- comparisons -------------------------------------------------------------
 
-func hashDump(d dump) uint64 {
+// hashDump feeds the trace hash. What is read from the KV key of a
+// HyperLogLog is left out: the sketch is gob-encoded including a Go
+// map, so the bytes differ from run to run even for one tape.
+func (s *sim) hashDump(d dump) uint64 {
 	var sb strings.Builder
 	for _, k := range core.SortedKeys(d) {
+		if p := strings.SplitN(k, "|", 3); len(p) == 3 && (p[0] == clKV || p[0] == clBit) {
+			// (everything read from such a key: under wait_compact the bytes are
+			// also taken for a value header, i.e. for ttl and version)
+			if _, ok := s.firstPfadd[p[1]]; ok {
+				continue
+			}
+		}
 		sb.WriteString(k)
 		sb.WriteByte(0)
 		sb.WriteString(d[k])
@@ -562,7 +572,12 @@ func (s *sim) compareAt(pos int) {
 	for i, in := range live {
 		logical[i] = logicalDump(in.st, s.ntable)
 		phys[i] = physicalDump(in.st)
-		s.lg("dump", "%d pos=%d at=%d items=%d phys=%d h=%x", in.idx, pos, now-bubbleEpoch, len(logical[i]), len(phys[i]), hashDump(logical[i]))
+		s.lg("dump", "%d pos=%d at=%d items=%d phys=%d h=%x", in.idx, pos, now-bubbleEpoch, len(logical[i]), len(phys[i]), s.hashDump(logical[i]))
+		if traceOn {
+			for _, k := range core.SortedKeys(logical[i]) {
+				fmt.Fprintf(core.Stdout, "  item %d %s = %s\n", in.idx, k, clip(logical[i][k]))
+			}
+		}
 	}
 	c.Probe("dump_compared")
 	for i := 0; i < len(live); i++ {
